@@ -55,7 +55,12 @@ def sanitizer_key(err):
     for ln in lines:
         m = re.search(r"(asmjit/[a-z0-9_/]+\.(?:cpp|h)):(\d+)", ln)
         if m and "asmjit-testing" not in ln:
-            loc = f"{m.group(1)}:{m.group(2)}"
+            # line numbers move with every edit of the file: the signature is the file plus a digest of the source line
+            try:
+                src = open(os.path.join(os.environ.get("VERIF_REPO", "/repo"), m.group(1)), errors="replace").read().splitlines()[int(m.group(2)) - 1]
+                loc = f"{m.group(1)}#{vlib.hashlib.sha1(' '.join(src.split()).encode()).hexdigest()[:8]}"
+            except Exception:
+                loc = f"{m.group(1)}:{m.group(2)}"
             # prefer the first frame that is not the generic bit helper
             if "support/support.h" not in m.group(1):
                 break
@@ -222,7 +227,7 @@ def run(ctx):
     ctx.log(f"recorded {nrec} events in {len(shards)} shards; sanitizer aborts: {sum(len(s['aborts']) for s in shards)}")
 
     def validate(sh):
-        return sh, vlib.validate_executions(ctx, MOD, CFG, sh["path"], tag="v_" + sh["name"], timeout=2400, heap="3g", max_rejects=10)
+        return sh, vlib.validate_executions(ctx, MOD, CFG, sh["path"], tag="v_" + sh["name"], timeout=2400, heap="3g", max_rejects=4)
 
     found = collections.OrderedDict()
     with concurrent.futures.ThreadPoolExecutor(max_workers=8) as ex:
